@@ -1697,8 +1697,9 @@ class HTMLDependency(MetadataNode):
 
         return Tag(
             "script",
-            # "</script>" in a script tag must be escaped
-            json.dumps(res, indent=indent).replace("</script>", "<\\/script>"),
+            # "</script" in any letter case, whatever follows it, must not occur in a
+            # script tag, so escape every "</" (JSON reads "\\/" as "/").
+            json.dumps(res, indent=indent).replace("</", "<\\/"),
             type="application/json",
             data_html_dependency=True,
         )
